@@ -25,8 +25,11 @@ def main():
     mod = importlib.import_module(f"vsgmc.props.{a.prop.lower()}")
     if a.replay:
         d = json.load(open(a.replay))
+        import signal
+
         from . import explore
 
+        signal.signal(signal.SIGALRM, explore._alarm)  # a replayed hang must end in the watchdog's exception, not kill the process
         keys = set(mod.reproduce(d["item"]))
         ctx = explore.context_of(d["item"])
         if ctx:
